@@ -36,6 +36,31 @@ CHECKS = {
    note=COMMON_NOTE + "Cryptographic residue (not a theorem): a corrupted Base58Check string is rejected unless the 4-byte SHA-256d checksums collide (2^-32). "
         "convertbits round trip and HRP-character substitutions are covered by the correspondence run only. A refusal of a string the Spec would accept "
         "(upper-case Bech32 in Address.parse, ambiguous litecoin WIF without network) is counted, not treated as a violation: C11 constrains acceptance."),
+ 'C06': dict(
+   technique='Lean 4 theorems (parse∘serialise = id for transactions and blocks, any counts/sizes) + independent Lean parser run against Transaction.parse / Block.parse on synthetic, corpus and real mainnet data',
+   text=("Proved in Lean for all inputs: parseTx (serTx t ++ r) = (t, r) for every well-formed transaction (legacy or BIP144, any number of inputs, "
+         "outputs and witness items, any script sizes below 2^64) by induction over the lists; the txid serialisation ignores witness data; 80-byte "
+         "header round trip; parseBlock (serBlock b ++ r) = (b, r); the library's target formula equals consensus SetCompact for exponent >= 3 and "
+         "clear sign bit. The Lean parser, SHA-256d (native) and serialiser are an independent implementation: every synthetic transaction (independent "
+         "harness serialiser; empty/one-byte/non-standard scripts, coinbase, counts across 252/253), the repository's raw vectors and every transaction "
+         "of real mainnet blocks (250000, 330000; thorough: 625007, 629999, 722010 = 8469 transactions) is parsed by both; fields, txid, block hash, "
+         "target, both block readers and byte-exact re-serialisation are compared. Found and fixed through this check: F31, F32, F30a; listed: F02, F30."),
+   design_ref='DESIGN.md §5 C06',
+   note=COMMON_NOTE + "SHA-256 is executable reference code validated by vectors and by agreement with hashlib on every case (nothing is proved about it). "
+        "strict=True refusals of non-standard content are counted, not violations."),
+ 'C01': dict(
+   technique='Lean 4 theorems (structure + injectivity of the legacy and BIP143 preimages) + consensus digests computed by the Lean model compared with signature_hash; every library signature verified by an independent Lean secp256k1 ECDSA',
+   text=("Proved in Lean: the legacy SIGHASH_ALL preimage is the witness-stripped serialisation of the transaction with emptied scriptSigs and the "
+         "script code at input i, followed by the hash type (any number of inputs/outputs); by the C06 round-trip theorem equal preimages imply equal "
+         "version, outpoints, sequences, script code, outputs and locktime (injectivity of what is committed); the BIP143 SIGHASH_ALL preimage has the "
+         "BIP143 layout and commits to the amount. The executable consensus digests (legacy incl. NONE/SINGLE/ANYONECANPAY, BIP143 all hash types) are "
+         "computed from the harness's own serialisation, script code and amount - never from the library's bytes - and compared with "
+         "Transaction.signature_hash for every input of API-built transactions over 8 spend kinds, all networks, counts across 252/253, m-of-n to 15; "
+         "then the library signs and every signature is verified by the Lean ECDSA against the Lean digest (valid on the real network, not merely "
+         "self-consistent). Found and fixed through this check: F33."),
+   design_ref='DESIGN.md §5 C01',
+   note=COMMON_NOTE + "secp256k1 arithmetic and SHA-256 in the driver are executable reference code (validated by vectors / agreement with the library), not verified. "
+        "FindAndDelete/OP_CODESEPARATOR are not modelled; the library does not implement legacy non-ALL hash types (it refuses to sign them)."),
 }
 
 NOT_YET = {}
@@ -63,7 +88,7 @@ def main():
             na.append({'property_id': pid, 'reason': NOT_YET.get(pid, 'check not built yet in this session (planned in DESIGN.md §5; an executable Lean model applies) - not claimed until its theorems and correspondence run exist')})
     m = {
         'version': 1,
-        'setup_cmd': 'cd /verif/lean && lake build',
+        'setup_cmd': 'cd /verif && /venv/bin/python harness/gen_tables.py && cd lean && lake build',
         'hooks': {'guard': 'BITCOINLIB_VERIF', 'enable': 'no source hooks: the harness imports /repo in-process and injects fakes by monkey-patching (BITCOINLIB_VERIF=1 is exported by the checks for completeness)',
                   'baseline_off_cmd': BASELINE, 'source_commits': [], 'add_only': True},
         'engines': [{'name': 'lean4-model+correspondence', 'path': 'lean/ + harness/', 'serves_properties': sorted(CHECKS),
